@@ -834,7 +834,13 @@ func writeEvidence(root, prop, tier string, seed int, ps *PropertySpec, runs []*
 		"exhaustive": len(inconclusive) == 0,
 	}
 	if level == "translation_validation" {
-		cov["programs"] = len(runs)
+		progs := map[string]bool{}
+		for _, r := range runs {
+			if r.spec.Gen != nil {
+				progs[r.spec.Gen.IDL] = true
+			}
+		}
+		cov["programs"] = len(progs)
 		cov["disagreements_checked"] = oblig
 	}
 	ev := map[string]interface{}{
